@@ -2,7 +2,10 @@
 
 Extracted (fail closed on any other shape):
 
-* `Readout.__init__`              (pyxel/exposure/readout.py)   -> g_ctor
+* `Readout.__init__`              (pyxel/exposure/readout.py)   -> g_ctor, and g_ndarray: is a numpy array given as
+  `times` converted to a list (`if isinstance(times, np.ndarray): times = times.tolist()`) before the source
+  selection?  The start guard is recognised in its negative form (`start >= x[0]`, GStartBelowFirst: NaN passes)
+  and in its positive form (`not start < x[0]`, GStartLtFirst: NaN refused).
 * `Readout.times` setter                                        -> g_set_times
 * `Readout.start_time` setter                                   -> g_set_start
 * `ReadoutProperties.__init__`    (pyxel/detectors/readout_properties.py) -> g_rp
@@ -37,7 +40,10 @@ def _guard_kind(test: ast.expr, X: str, S: str) -> str:
     t = ast.unparse(test)
     table = {
         f"{X}[0] == 0": "GFirstNonZero",
-        f"{S} >= {X}[0]": "GStartBelowFirst",
+        f"{S} >= {X}[0]": "GStartBelowFirst",          # negative form: false for NaN, so NaN passes
+        f"{X}[0] <= {S}": "GStartBelowFirst",
+        f"not {S} < {X}[0]": "GStartLtFirst",           # positive form: NaN is refused
+        f"not {X}[0] > {S}": "GStartLtFirst",
         f"not np.all(np.diff({X}) > 0)": "GIncreasing",
         f"{X}.ndim != 1": "GNdim1",
         f"{X}.size == 0": "GNonEmpty",
@@ -115,7 +121,16 @@ def _setter(tree, cls: str, name: str) -> ast.FunctionDef:
     return c[0]
 
 
-def _ctor_guards(fn: ast.FunctionDef) -> list[str]:
+def _is_ndarray_conversion(st: ast.stmt) -> bool:
+    """`if isinstance(times, np.ndarray): times = times.tolist()` (or list(times) / np.asarray(times).tolist())."""
+    return (isinstance(st, ast.If) and not st.orelse
+            and ast.unparse(st.test) in ("isinstance(times, np.ndarray)", "isinstance(times, numpy.ndarray)")
+            and len(st.body) == 1 and _assigns_to(st.body[0], "times")
+            and ast.unparse(st.body[0].value) in ("times.tolist()", "list(times)", "np.asarray(times).tolist()",
+                                                  "np.array(times).tolist()"))
+
+
+def _ctor_guards(fn: ast.FunctionDef) -> tuple[bool, list[str]]:
     names = [a.arg for a in fn.args.args]
     if names != ["self", "times", "times_from_file", "start_time", "non_destructive"]:
         fail(fn, "Readout.__init__ signature")
@@ -124,8 +139,12 @@ def _ctor_guards(fn: ast.FunctionDef) -> list[str]:
     k = next((i for i, st in enumerate(body) if isinstance(st, ast.If) and "times_from_file" in ast.unparse(st.test)), None)
     if k is None:
         fail(fn, "Readout.__init__: source-selection chain not found")
+    ndarray = False
     for st in body[:k]:
-        if not isinstance(st, (ast.Assign, ast.AnnAssign)) or _contains_raise(st):
+        if _is_ndarray_conversion(st):
+            ndarray = True
+            continue
+        if not isinstance(st, (ast.Assign, ast.AnnAssign)) or _contains_raise(st) or _assigns_to(st, "times"):
             fail(st, "unexpected statement before the source selection")
     guards = []
     node = body[k]
@@ -158,7 +177,7 @@ def _ctor_guards(fn: ast.FunctionDef) -> list[str]:
     if not ok_build:
         fail(body[k], "`times` branch must assign self._times = np.array(eval_range(times), ...)")
     guards += _collect(body[k + 1:], "self._times", "start_time", lambda st: _calls(st, "self._set_steps"))
-    return guards
+    return ndarray, guards
 
 
 def _empty_table(fn: ast.FunctionDef) -> tuple[list[str], list[str]]:
@@ -252,7 +271,7 @@ def extract(repo: Path) -> dict:
     t_rp = parse(repo, "pyxel/detectors/readout_properties.py")
     t_det = parse(repo, "pyxel/detectors/detector.py")
 
-    g_ctor = _ctor_guards(find_func(t_ro, "__init__", "Readout"))
+    g_ndarray, g_ctor = _ctor_guards(find_func(t_ro, "__init__", "Readout"))
 
     f = _setter(t_ro, "Readout", "times")
     if [a.arg for a in f.args.args] != ["self", "value"]:
@@ -280,7 +299,7 @@ def extract(repo: Path) -> dict:
     always, if_reset = _empty_table(find_func(t_det, "empty", "Detector"))
     sr = _set_readout_policy(find_func(t_det, "set_readout", "Detector"))
     _check_run_pipeline_call(parse(repo, "pyxel/exposure/exposure.py"))
-    return dict(g_ctor=g_ctor, g_set_times=g_set_times, g_set_start=g_set_start, g_rp=g_rp,
+    return dict(g_ndarray=g_ndarray, g_ctor=g_ctor, g_set_times=g_set_times, g_set_start=g_set_start, g_rp=g_rp,
                 e_always=always, e_if_reset=if_reset, sr=sr)
 
 
@@ -292,7 +311,8 @@ def render(t: dict) -> str:
     return (HEADER +
             "From Coq Require Import List.\nFrom PyxelV Require Import Model.Exposure.\nImport ListNotations.\n"
             "Definition src_guards : guard_table :=\n"
-            f"  {{| g_ctor := {_lst(t['g_ctor'])};\n"
+            f"  {{| g_ndarray := {'true' if t['g_ndarray'] else 'false'};\n"
+            f"     g_ctor := {_lst(t['g_ctor'])};\n"
             f"     g_set_times := {_lst(t['g_set_times'])};\n"
             f"     g_set_start := {_lst(t['g_set_start'])};\n"
             f"     g_rp := {_lst(t['g_rp'])} |}}.\n"
@@ -307,8 +327,9 @@ def translate(repo: Path) -> str:
 
 # the last accepted shape (the unchanged tree); only used to keep a model for the failing-input search
 FALLBACK = render(dict(
-    g_ctor=["GProvided", "GFirstNonZero", "GStartBelowFirst", "GIncreasing"],
-    g_set_times=["GNdim1", "GNonEmpty", "GFirstNonZero", "GStartBelowFirst"],
-    g_set_start=["GStartBelowFirst"],
-    g_rp=["GNdim1", "GFirstNonZero", "GStartBelowFirst", "GIncreasing"],
+    g_ndarray=True,
+    g_ctor=["GProvided", "GFirstNonZero", "GStartLtFirst", "GIncreasing"],
+    g_set_times=["GNdim1", "GNonEmpty", "GFirstNonZero", "GStartLtFirst"],
+    g_set_start=["GStartLtFirst"],
+    g_rp=["GNdim1", "GFirstNonZero", "GStartLtFirst", "GIncreasing"],
     e_always=["Scene", "Photon", "Charge", "Signal", "Image"], e_if_reset=["Pixel"], sr="SRAlwaysNew"))
